@@ -41,6 +41,15 @@ def norm_act(a):
     return a
 
 
+def workers_for(g, tier):
+    """Forked replay workers each end up with their own copy of the graph (reference counts touch every page): keep the
+    product of graph size and workers within memory."""
+    n = g.nedges
+    if tier == "quick":
+        return 6
+    return 12 if n < 150000 else (6 if n < 400000 else 3)
+
+
 def one(tier, seed, ev, rep, kind, ids, fresh, maxlive, budget, maxview=1, maxpar=0, ap="AP1", withnew=False):
     from ..adapters.moledit import MolEditAdapter
     c = cfg(ids, fresh, maxlive, kind == "Molecule", maxview=maxview, maxpar=maxpar, ap=ap, withnew=withnew)
@@ -64,7 +73,7 @@ def one(tier, seed, ev, rep, kind, ids, fresh, maxlive, budget, maxview=1, maxpa
         e["act"] = norm_act(e["act"])
     g = replay.Graph(edges, key_fields_drop=("out",))
     del edges
-    stats, viol, _, _, samples = replay.cover_parallel(g, lambda: MolEditAdapter(kind), seed=seed, nproc=6 if tier == "quick" else 12,
+    stats, viol, _, _, samples = replay.cover_parallel(g, lambda: MolEditAdapter(kind), seed=seed, nproc=workers_for(g, tier),
                                                        max_path=40, budget_s=budget)
     ev.count(evaluations=stats["steps"], distinct_nontrivial=stats["pairs_exercised"], traces=stats["paths"])
     ev.cov.setdefault("replay", {})[f"{kind},{ids},{fresh},{ap},{maxlive},view{maxview},par{maxpar}"] = stats
@@ -149,7 +158,6 @@ def run(tier, seed, replay_path):
         one(tier, seed, ev, rep, "Structure", "Ids3", "Fr1", 2, budget=90, maxview=1)
         one(tier, seed, ev, rep, "Molecule", "Ids3", "Fr0", 3, budget=120, maxview=0, maxpar=1, ap="AP0")
         one(tier, seed, ev, rep, "Structure", "Ids3", "Fr1", 2, budget=90, maxview=1, maxpar=1, withnew=True)
-        one(tier, seed, ev, rep, "Structure", "Ids4", "Fr1", 3, budget=200, maxview=0, maxpar=1)
         direction_b(tier, seed, ev, rep)
     ev.set(rule="one case = one (model state, edit call) pair of the TLC graph replayed on a real Molecule/Structure; the "
                 "observation is keyed by atom identity; distinct_nontrivial = distinct pairs exercised within the time budget")
